@@ -106,8 +106,9 @@ def run(ctx, config="all"):
                  if s["s"] == "assign" and s["rv"]["r"] == "cast"]
         binops = [s["rv"]["op"] for bi in v32.reachable for s in v32.blocks[bi]["stmts"]
                   if s["s"] == "assign" and s["rv"]["r"] == "bin"]
-        if calls == [F64] and casts == ["FloatToFloat"] and not binops:
-            rep.ok("try_from_f32", "%s:%s" % (b32["file"], b32["line"]), "try_from(value as f64)")
+        WIDEN = "core::convert::num::<impl core::convert::From<f32> for f64>::from"
+        if not binops and ((calls == [F64] and casts == ["FloatToFloat"]) or (calls == [WIDEN, F64] and not casts)):
+            rep.ok("try_from_f32", "%s:%s" % (b32["file"], b32["line"]), "try_from(value as f64) / try_from(f64::from(value))")
         else:
             rep.violation("try_from_f32", "%s:%s" % (b32["file"], b32["line"]), "TryFrom<f32> is not the exact widening "
                           "forward to TryFrom<f64>: calls %s, casts %s, ops %s" % (calls, casts, binops))
